@@ -53,17 +53,14 @@ def run(chk, cases, tag, suite_name="EXEC", project=None, max_report=4, on_case=
     """cases: list of dicts {src, stdin, wb, rf, meta}.  Compares stdout bytes and outcome
     (error variant; message wording is reported as drift only).
     Returns list of per-case records {case, model:{debug,release}, impl:{debug,release}, parse}."""
-    srcs = [c["src"] for c in cases]
-    asts = get_asts(srcs, f"{chk.pid}_{tag}")
     impl_lines, model_lines = [], {"model_debug": [], "model_release": []}
     for i, c in enumerate(cases):
-        impl_lines.append(f"(exec c{i} run {C.hx(c['src'])} {C.hx(c.get('stdin', ''))} {opt(c.get('wb'))} {opt(c.get('rf'))})")
-        st, ast = asts[i]
-        if st == "ok":
-            for prof in ("debug", "release"):
-                model_lines[f"model_{prof}"].append(
-                    f"(exec c{i} runast {ast} {C.hx(c.get('stdin', ''))} {opt(c.get('wb'))} {opt(c.get('rf'))} {prof})")
+        base = f"(exec c{i} run {C.hx(c['src'])} {C.hx(c.get('stdin', ''))} {opt(c.get('wb'))} {opt(c.get('rf'))}"
+        impl_lines.append(base + ")")
+        for prof in ("debug", "release"):
+            model_lines[f"model_{prof}"].append(base + f" {prof})")
     res, died = C.run_cases({"debug": impl_lines, "release": impl_lines, **model_lines}, f"{chk.pid}_{tag}")
+    asts = [("parse-error", "") if res["debug"][f"c{i}"].startswith("parse-error") else ("ok", "") for i in range(len(cases))]
     stats = {"cases": len(cases), "parse_errors": 0, "mismatch": 0, "discarded_budget": 0, "impl_crash": 0,
              "runtime_errors": 0, "ok": 0, "drift": 0}
     records = []
@@ -74,9 +71,6 @@ def run(chk, cases, tag, suite_name="EXEC", project=None, max_report=4, on_case=
         records.append(rec)
         if st != "ok":
             stats["parse_errors"] += 1
-            for prof in ("debug", "release"):
-                rec["impl"][prof] = canon_impl(res[prof][f"c{i}"])
-            continue
         bad = None
         for prof in ("debug", "release"):
             it = canon_impl(res[prof][f"c{i}"])
